@@ -34,11 +34,23 @@ def _init_table(ix, cls):
         return table, calls_reset, params, None
     params = [a.arg for a in f.node.args.args[1:]]
     appended = {}
+    # locals of the constructor bound once (`size = self.end + 1`) stand for their expression
+    import copy as _copy
+    ldefs = {}
+    for st in f.node.body:
+        if isinstance(st, ast.Assign) and len(st.targets) == 1 and isinstance(st.targets[0], ast.Name) and st.targets[0].id not in params:
+            ldefs.setdefault(st.targets[0].id, []).append(st.value)
+
+    class _Inl(ast.NodeTransformer):
+        def visit_Name(self, n_):
+            if isinstance(n_.ctx, ast.Load) and len(ldefs.get(n_.id, [])) == 1:
+                return ast.copy_location(self.visit(_copy.deepcopy(ldefs[n_.id][0])), n_)
+            return n_
     for st in f.node.body:
         if isinstance(st, ast.Assign) and len(st.targets) == 1:
             loc = E.self_loc(st.targets[0])
             if loc is not None:
-                table[loc] = st.value
+                table[loc] = _Inl().visit(_copy.deepcopy(st.value)) if ldefs else st.value
                 if isinstance(st.value, ast.List) and not st.value.elts:
                     appended[loc] = 0
         elif isinstance(st, ast.Expr) and isinstance(st.value, ast.Call) and isinstance(st.value.func, ast.Attribute):
